@@ -21,6 +21,7 @@ import (
 	"github.com/IrineSistiana/mosproxy/verifsim/refdns"
 	"github.com/IrineSistiana/mosproxy/verifsim/sim"
 	"github.com/IrineSistiana/mosproxy/verifsim/vnet"
+	"github.com/IrineSistiana/mosproxy/verifsim/vredis"
 	"github.com/rs/zerolog"
 )
 
@@ -90,6 +91,9 @@ func BuildConfig(rp *plan.RouterPlan, pki *peers.PKI, dir string) (*router.Confi
 	}
 	cfg.Cache.MemSize = rp.Cache.MemSize
 	cfg.Cache.MaximumTTL = rp.Cache.MaxTTL
+	if rp.Cache.Redis != nil {
+		cfg.Cache.Redis = "redis://10.2.0.1:6379"
+	}
 	if len(rp.Cache.IpMarker) > 0 {
 		var sb strings.Builder
 		sb.WriteString("# generated\n\n")
@@ -239,6 +243,21 @@ func RunRouter(t *testing.T, p *plan.Plan, keepLog int) *Result {
 			installKnobs(s, p.Knobs)
 			defer uninstallKnobs()
 			netPolicies(w, s, &rp.Net, rp.Conns, rp.Upstreams)
+			if rs := rp.Cache.Redis; rs != nil {
+				rc := vredis.Config{
+					Now:     s.Now,
+					Latency: func(n uint64) time.Duration { return s.Dur("redis-lat", n, us(rs.LatUs[0]), us(rs.LatUs[1])) },
+					Log:     func(kind, detail string) { s.Logf(kind, "%s", detail) },
+				}
+				for _, d := range rs.DownUs {
+					rc.Down = append(rc.Down, vredis.Window{From: us(d[0]), To: us(d[1])})
+				}
+				for _, f := range rs.FlushUs {
+					rc.FlushAt = append(rc.FlushAt, us(f))
+				}
+				vredis.Install(rc)
+				defer vredis.Uninstall()
+			}
 			h = &History{P: p, RP: rp, S: s, Ups: map[string]*peers.UpServer{}, Sets: map[string]*refSet{}}
 			for i := range rp.DomainSets {
 				h.Sets[rp.DomainSets[i].Tag] = newRefSet(&rp.DomainSets[i])
